@@ -56,7 +56,9 @@ def law(ctx, name, cond_fn, desc_fn, payload, nontrivial=True):
         ok = cond_fn()
     except Exception as e:
         from ..monitor import raised_by_harness
-        if raised_by_harness(e):
+        # "unsupported operand type(s)" is raised by the interpreter at the harness' expression when the library's operator
+        # methods return NotImplemented: that is the library refusing the operation, not a harness error
+        if raised_by_harness(e) and not (isinstance(e, TypeError) and 'unsupported operand type' in str(e)):
             raise
         fail(ctx, name, f'raised {describe_exc(e)} on {desc_fn()}', payload)
         return
